@@ -207,3 +207,16 @@ Definition gen_pmax (K : Fld) (O : Ops K) (L : leaf -> K) (B : bleaf -> bool) : 
     ((((- (L O_getPSShiftY)) * (L O_getPhaseSpaceSize)) / ((L O_getGridSize) - 1)) + ((L O_getPhaseSpaceSize) / (1+1))).
 Definition gen_axis_steps (K : Fld) (O : Ops K) (L : leaf -> K) (B : bleaf -> bool) : K :=
     (L O_getGridSize).
+Definition gen_ps_Meter (K : Fld) (O : Ops K) (L : leaf -> K) (B : bleaf -> bool) : K :=
+    let x1 := (((L O_getBeamEnergy) / (L C_me)) * (((L O_getBeamEnergy) / (L C_me)) * (((L O_getBeamEnergy) / (L C_me)) * ((L O_getBeamEnergy) / (L C_me))))) in
+    let x2 := ((L C_e) * x1) in
+    let x3 := ((L C_c) / ((L C_two_pi) * (L O_getRevolutionFrequency))) in
+    let x4 := (if (o_lt O 0 (L O_getBendingRadius)) then (L O_getBendingRadius) else x3) in
+    let x5 := (((1+(1+1)) * (L C_epsilon0)) * x4) in
+    let x6 := (x2 / x5) in
+    let x7 := (x6 * x6) in
+    let x8 := (((L O_getRFVoltage) * (L O_getRFVoltage)) - x7) in
+    let x9 := (o_sqrt O x8) in
+    ((((((L C_c) * ((L O_getEnergySpread) * (L O_getBeamEnergy))) / (L O_getHarmonicNumber)) / ((L O_getRevolutionFrequency) * (L O_getRevolutionFrequency))) / x9) * (if (o_is0 O (L O_getSyncFreq)) then ((L O_getRevolutionFrequency) * (o_sqrt O ((((L O_getAlpha0) * (L O_getHarmonicNumber)) * x9) / ((L C_two_pi) * (L O_getBeamEnergy))))) else (L O_getSyncFreq))).
+Definition gen_ps_ElectronVolt (K : Fld) (O : Ops K) (L : leaf -> K) (B : bleaf -> bool) : K :=
+    ((L O_getEnergySpread) * (L O_getBeamEnergy)).
